@@ -1,89 +1,703 @@
 """C20 — Formula differentiation is the term-wise partial derivative.
 
-Correspondence stream `c20`: the real `Formula(...).differentiate(*wrt)` against
-`Model.differentiateFormula` on the term list the real parser produced.
-Oracle (impl only): (1) result has the same number/order of terms and each is the product-rule
-derivative; (2) every non-zero derivative term materialises to the exact finite difference
-(step h=1) of the original term's column on integer data.
+Correspondence stream `c20` (op `diff`): every differentiation entry point of the real package —
+`SimpleFormula.differentiate`, `StructuredFormula.differentiate` (part-wise `_map`), `ModelSpec.differentiate`
+(fresh spec / spec of an already built matrix), `ModelSpecs.differentiate` — on formulas built with every
+`_ordering` option from strings and from explicit term trees, before and after in-place edit histories, with and
+without `use_sympy`, against `Model.Calc` (Lean). The model is handed the term lists as they are BEFORE the
+constructor's re-ordering and computes itself: the re-ordered term lists, the edit history (Model.SFm), the
+derivative of every part, the state of the derivative object after further edits (its ordering is NONE), and —
+through the C02 materializer model on a numeric factor cache — the columns of the derivative's and of the original's
+model matrix, term by term.
+
+Oracle (implementation only, no model): (1) every part of the result has the same number/order of terms and each is
+the product-rule derivative of the term at the same position; the structure (keys, tuple lengths) is unchanged;
+(2) every non-zero derivative term materialises to exactly one column, equal to the exact finite difference
+(step 1 in each variable, successively) of the product of the original term's factor columns on integer data.
 """
 from __future__ import annotations
 
-import itertools
+import importlib.util
+from fractions import Fraction
 
 import numpy
 import pandas
 
 PROPERTY = "C20"
 ENGINE = "c20"
-REQUIRED_THEOREMS = ["diff_term_is_partial", "diff_termwise", "diff_length", "diff_is_finite_difference", "diff_commutes"]
-TRUSTED = [
-    "modelled, not verified: the sympy path of differentiate_term (sympy is not installed here)",
-    "the finite-difference clause is a theorem about products in a commutative ring (Props.C20.diff_is_finite_difference); "
-    "that the materialised column of a term IS that product is property C02",
+REQUIRED_THEOREMS = [
+    # differentiate_term
+    "diff_term_is_partial", "diff_termwise", "diff_length", "atomic_factor_zero", "whole_factor_removed",
+    "sympy_missing", "sympy_missing_formula", "diff_term_plain",
+    # entry points, orderings, histories
+    "simple_differentiate_termwise", "history_differentiate_termwise", "slice_differentiate_termwise",
+    "structured_differentiate_partwise", "specs_differentiate_partwise", "structured_error_propagates",
+    "gen_constants",
+    # values
+    "diff_is_finite_difference", "finite_difference_many", "diff_commutes", "diff_commutes_any_order",
+    # materialisation
+    "numeric_matrix_refines", "numeric_term_column", "derivative_columns_are_finite_differences",
+    "derivative_columns_of_distinct_terms",
 ]
-ASSUMPTIONS = ["terms are products of distinct factors (Term.__init__ de-duplicates by expression)"]
+TRUSTED = [
+    "not modelled: the sympy path of differentiate_term (use_sympy=True with sympy importable; sympy is not installed "
+    "here, the generator then emits no such case and the engine would answer NOT-MODELLED); what IS modelled and "
+    "exercised is use_sympy=True without sympy (ImportError unless there is nothing to ask sympy about)",
+    "the materialisation theorems are about Model.CalcMat.materialize = the C02 model of _build_model_matrix "
+    "(Model/Materialize.lean, Model/Columns.lean) run on a numeric factor cache; that the real materializer agrees with "
+    "that model is checked here on every derivative/original matrix (columns compared exactly, term by term) and is "
+    "property C02's tie in general; the values of Python factors (I(a ** 2), abs(b), …) enter as data computed by the "
+    "harness, literals as exact rationals",
+    "the term lists handed to the SimpleFormula constructors (the parser's output for string formulas; Structured's "
+    "key handling for explicit trees) enter as data (properties C01/C19); the re-ordering, the edit history, every "
+    "derivative and every column are computed by the model",
+    "Gen/Calculus.lean (OrderingMethod members, default/derivative ordering, the literal 0/1 terms, exception class "
+    "names, sympy importable) is regenerated from the live package by harness/translate.py:gen_calculus",
+]
+ASSUMPTIONS = [
+    "terms are products of distinct factors (Term.__init__ de-duplicates by expression; the theorems carry it as "
+    "Term.WF, preserved by every ordering and sequence operation: history_differentiate_termwise)",
+    "second clause: numeric factors only (literals and single numeric columns, no categorical factor, no missing "
+    "values), every column has one entry per row, the literals 0 and 1 evaluate to 0 and 1; with rank reduction on, "
+    "no two terms of the formula have the same set of variable factors (the parser merges such terms; a repeated "
+    "term gets no column of its own: numeric_matrix_refines says exactly which)",
+]
 RULE = (
-    "random formulas over numeric columns a..e (products of distinct factors, optional numeric literal scalings, "
-    "intercept on/off) x random tuples of differentiation variables incl. repeats and absent names x entry point (Formula.differentiate, ModelSpec.differentiate on a fresh spec and on the spec of an already built matrix; the derivative is then materialised through that spec); 30% of the cases continue with in-place edits of the formula (del/pop/insert/append/setitem) and a second differentiation; "
-    "non-trivial = formula has an interaction term and wrt is non-empty; distinct by canonical JSON"
+    "formulas from strings (sums of products of distinct factors over numeric columns a..e, Python factors I(a ** 2), "
+    "abs(b), I(c * d), I(e + 1), literal scalings, intercept on/off/removed, written in shuffled order; 30% structured: "
+    "lhs ~ rhs, multi-part `|`) and from explicit term trees (35%: nested keys/tuples, optionally repeated and "
+    "factor-less terms, Python factors spelled differently from the parser) x EVERY _ordering option (degree, none, "
+    "sort, default) x tuples of 0..3 variables incl. repeats, absent names, whole Python-factor strings, spellings that "
+    "are not the factor string, a literal x entry point (Formula.differentiate on Simple/StructuredFormula, "
+    "ModelSpec(s).differentiate on a fresh spec and on the spec of an already built matrix) x use_sympy=True without "
+    "sympy (8%) x, for simple formulas, in-place edit histories before a second differentiation (55%), a slice (25%), "
+    "edits of the derivative object (30%); the derivative and the original are materialised (numpy output, rank "
+    "reduction on/off) on 4 rows of integer data; non-trivial = wrt non-empty and an interaction/explicit tree; "
+    "distinct by canonical JSON; 8 fixed corpus cases for the ordering class"
 )
 
 VARS = ["a", "b", "c", "d", "e"]
+# Python factors with exact integer values (the non-sympy path treats the whole factor string as ONE symbol)
+PYF = {
+    # as the parser writes them (it re-prints Python code through `ast`) ...
+    "I(a ** 2)": lambda d: d["a"] ** 2,
+    "abs(b)": lambda d: abs(d["b"]),
+    "I(c * d)": lambda d: d["c"] * d["d"],
+    "I(e + 1)": lambda d: d["e"] + 1,
+    # ... and spelled differently: other factor strings, hence other symbols for `differentiate`
+    "I(a**2)": lambda d: d["a"] ** 2,
+    "I(c*d)": lambda d: d["c"] * d["d"],
+}
+PYF_VARS = {"I(a ** 2)": {"a"}, "abs(b)": {"b"}, "I(c * d)": {"c", "d"}, "I(e + 1)": {"e"}, "I(a**2)": {"a"},
+            "I(c*d)": {"c", "d"}}
+PYF_PARSED = ["I(a ** 2)", "abs(b)", "I(c * d)", "I(e + 1)"]
+LITS = ["2", "3", "0.5"]
+NROWS = 4
+HAVE_SYMPY = importlib.util.find_spec("sympy") is not None
+
+
+# ----------------------------------------------------------------------------- generators
+
+
+def _method(x):
+    if x in PYF:
+        return "python"
+    return "literal" if x[:1].isdigit() else "lookup"
+
+
+def _gen_factor_sets(rng, nterms, pyprob, explicit=False):
+    """term strings over distinct non-literal factor sets (one term per set: the parser merges re-scaled repeats,
+    and with rank reduction a repeated term gets no column of its own)"""
+    terms, seen = [], set()
+    for _ in range(nterms):
+        k = rng.choice([1, 1, 2, 2, 3, 4])
+        pool = VARS + ((list(PYF) if explicit else PYF_PARSED) if rng.random() < pyprob else [])
+        fs = rng.sample(pool, min(k, len(pool)))
+        if frozenset(fs) in seen:
+            continue
+        seen.add(frozenset(fs))
+        if rng.random() < 0.2:
+            fs.insert(rng.randrange(len(fs) + 1), rng.choice(LITS))
+        terms.append(fs)
+    return terms
+
+
+def _gen_wrt(rng, used):
+    nw = rng.choice([0, 1, 1, 1, 1, 2, 2, 2, 3])
+    pool = VARS + ["zz"] + [u for u in used if u in PYF] * 2 + (["2"] if rng.random() < 0.1 else [])
+    if any(u in PYF for u in used) and rng.random() < 0.3:
+        pool = pool + list(PYF)  # also spellings that are NOT the factor string
+    return [rng.choice(pool) for _ in range(nw)]
+
+
+def _gen_rhs(rng, pyprob):
+    terms = _gen_factor_sets(rng, rng.randint(1, 6), pyprob)
+    rng.shuffle(terms)  # so that the written order is not already the degree order
+    body = " + ".join(":".join(t) for t in terms)
+    r = rng.random()
+    if r < 0.25:
+        return body + " - 1", terms
+    if r < 0.4:
+        return "1 + " + body, terms
+    if r < 0.5:
+        return "0 + " + body, terms
+    return body, terms
+
+
+def _gen_string_spec(rng, structured, pyprob):
+    used = []
+    if not structured:
+        s, ts = _gen_rhs(rng, pyprob)
+        used += [x for t in ts for x in t]
+        return {"s": s}, used
+    parts = []
+    for _ in range(rng.choice([1, 1, 2, 3])):
+        s, ts = _gen_rhs(rng, pyprob)
+        used += [x for t in ts for x in t]
+        parts.append(s)
+    rhs = " | ".join(parts)
+    r = rng.random()
+    if r < 0.6:
+        lhs = " + ".join(rng.sample(VARS, rng.choice([1, 1, 2])))
+        return {"s": lhs + " ~ " + rhs}, used
+    if r < 0.8 and len(parts) > 1:
+        return {"s": rhs}, used
+    return {"s": "~ " + rhs}, used
+
+
+def _gen_term_dicts(rng, n, pyprob, allow_dups):
+    out = []
+    for fs in _gen_factor_sets(rng, n, pyprob, explicit=True):
+        out.append([{"x": x, "m": _method(x)} for x in fs])
+    if allow_dups and out and rng.random() < 0.5:
+        out.insert(rng.randrange(len(out) + 1), list(rng.choice(out)))  # a repeated term
+    if allow_dups and rng.random() < 0.3:
+        out.insert(rng.randrange(len(out) + 1), [])  # a term without factors
+    rng.shuffle(out)
+    return out
+
+
+def _gen_tree_spec(rng, structured, pyprob, allow_dups):
+    """explicit term trees: {"l": [terms]} | {"t": [...]} | {"n": [[key, sub], ...]}"""
+
+    def leaf():
+        return {"l": _gen_term_dicts(rng, rng.choice([0, 1, 2, 3, 4, 5]), pyprob, allow_dups)}
+
+    def sub(depth):
+        r = rng.random()
+        if depth >= 2 or r < 0.55:
+            return leaf()
+        if r < 0.8:
+            return {"t": [leaf() for _ in range(rng.choice([1, 2, 3]))]}
+        return node(depth + 1)
+
+    def node(depth):
+        keys = rng.sample(["root", "lhs", "rhs", "z", "q"], rng.choice([1, 2, 2, 3]))
+        return {"n": [[k, sub(depth)] for k in keys]}
+
+    t = node(0) if structured else leaf()
+    used = []
+
+    def walk(v):
+        if "l" in v:
+            used.extend(f["x"] for term in v["l"] for f in term)
+        elif "t" in v:
+            for x in v["t"]:
+                walk(x)
+        else:
+            for _, x in v["n"]:
+                walk(x)
+
+    walk(t)
+    return {"tree": t}, used
+
+
+def _gen_term_value(rng):
+    if rng.random() < 0.06:
+        return None  # not a Term: rejected before anything changes
+    k = rng.choice([0, 1, 1, 2, 2, 3])
+    fs = rng.sample(VARS + list(PYF), k)
+    if k == 0 or rng.random() < 0.15:
+        fs.insert(rng.randrange(len(fs) + 1), rng.choice(["1"] + LITS))
+    return [{"x": x, "m": _method(x)} for x in fs]
+
+
+def _gen_ops(rng, n):
+    ops = []
+    for _ in range(n):
+        r = rng.random()
+        i = rng.choice([-9, -3, -2, -1, 0, 0, 1, 2, 3, 5, 9])
+        if r < 0.3:
+            ops.append({"o": "insert", "i": i, "t": _gen_term_value(rng)})
+        elif r < 0.5:
+            ops.append({"o": "set", "i": i, "t": _gen_term_value(rng)})
+        elif r < 0.65:
+            ops.append({"o": "del", "i": i})
+        elif r < 0.7:
+            ops.append({"o": "delslice", "a": i, "b": rng.choice([-2, 0, 1, 2, 4, 9])})
+        elif r < 0.82:
+            ops.append({"o": "append", "t": _gen_term_value(rng)})
+        elif r < 0.88:
+            ops.append({"o": "extend", "ts": [_gen_term_value(rng) for _ in range(rng.choice([0, 1, 2]))]})
+        elif r < 0.96:
+            ops.append({"o": "pop", "i": rng.choice([-1, -1, 0, i])})
+        else:
+            ops.append({"o": "reverse"})
+    return ops
+
+
+def gen_case(rng):
+    structured = rng.random() < 0.3
+    pyprob = rng.choice([0.0, 0.0, 0.5])
+    explicit = rng.random() < 0.35
+    entry = rng.choice(["formula", "formula", "spec", "matspec"])
+    # repeated / empty terms only where no matrix of the ORIGINAL formula is compared term by term with rank
+    # reduction on (a repeated term then has no column of its own)
+    efr = rng.random() < 0.5
+    allow_dups = explicit and rng.random() < 0.4
+    if explicit:
+        spec, used = _gen_tree_spec(rng, structured, pyprob, allow_dups)
+    else:
+        spec, used = _gen_string_spec(rng, structured, pyprob)
+    c = dict(
+        k="diff",
+        spec=spec,
+        ordering=rng.choice(["degree", "none", "sort", "sort", "none", None]),
+        wrt=_gen_wrt(rng, used),
+        sympy=(not HAVE_SYMPY) and rng.random() < 0.08,
+        entry=entry,
+        efr=efr,
+        dups=allow_dups,
+        data={v: [rng.randint(-4, 6) for _ in range(NROWS)] for v in VARS},
+    )
+    if not structured and rng.random() < 0.55:
+        c["ops"] = _gen_ops(rng, rng.choice([1, 2, 3, 6]))
+    if not structured and rng.random() < 0.3:
+        c["dops"] = _gen_ops(rng, rng.choice([1, 2, 4]))
+    if not structured and rng.random() < 0.25:
+        c["slice"] = [rng.choice([-9, -3, -2, -1, 0, 0, 1, 2, 3]), rng.choice([-2, -1, 0, 1, 2, 3, 4, 9])]
+    return c
 
 
 def cases(rng, tier):
-    n = {"quick": 400, "thorough": 6000, "search": 300}[tier]
+    n = {"quick": 500, "thorough": 7000, "search": 300}[tier]
     for _ in range(n):
-        nterms = rng.randint(1, 6)
-        terms, seen = [], set()
-        for _ in range(nterms):
-            k = rng.choice([1, 1, 2, 2, 3, 4])
-            fs = rng.sample(VARS, k)
-            if frozenset(fs) in seen:  # one term per factor set (the parser rejects re-scaled repeats)
-                continue
-            seen.add(frozenset(fs))
-            if rng.random() < 0.2:
-                fs.insert(rng.randrange(len(fs) + 1), rng.choice(["2", "3", "0.5"]))
-            terms.append(":".join(fs))
-        icpt = rng.choice(["", "", "0 + ", "1 + "])
-        formula = icpt + " + ".join(terms)
-        nw = rng.choice([1, 1, 1, 2, 2, 3])
-        wrt = [rng.choice(VARS + ["zz"]) for _ in range(nw)]
-        c = dict(
-            formula=formula,
-            wrt=wrt,
-            efr=rng.random() < 0.5,
-            # entry point: Formula.differentiate, ModelSpec.differentiate on a fresh spec, or on the spec of a
-            # matrix that has already been built (the spec then carries the structure of the ORIGINAL terms)
-            entry=rng.choice(["formula", "formula", "spec", "matspec"]),
-            data={v: [rng.randint(-4, 6) for _ in range(4)] for v in VARS},
-        )
-        if rng.random() < 0.3:
-            # history: differentiate, edit the formula object in place, differentiate again
-            c["edits"] = [
-                rng.choice([["del", rng.randint(0, 5)], ["pop"], ["insert", rng.randint(0, 5), rng.choice(VARS)],
-                            ["append", ":".join(rng.sample(VARS, 2))], ["set", rng.randint(0, 5), rng.choice(VARS)]])
-                for _ in range(rng.randint(1, 3))
-            ]
-        yield c
+        yield gen_case(rng)
 
 
 def describe(c):
-    return f"terms={c['formula'].count('+') + 1},wrt={len(c['wrt'])},entry={c.get('entry', 'formula')}"
+    if c.get("k") != "diff":
+        return "legacy"
+    shape = "tree" if "tree" in c["spec"] else "str"
+    return f"{c['entry']},{c['ordering']},{shape},wrt={len(c['wrt'])}" + (",ops" if c.get("ops") else "") + (
+        ",sympy" if c.get("sympy") else "")
 
 
 def nontrivial(c):
-    return ":" in c["formula"] and len(c["wrt"]) > 0
+    if c.get("k") != "diff":
+        return ":" in c["formula"] and len(c["wrt"]) > 0
+    return len(c["wrt"]) > 0 and (":" in c["spec"].get("s", "") or "tree" in c["spec"])
+
+
+# ----------------------------------------------------------------------------- running the real code
+
+
+def _term(t):
+    from formulaic.parser.types import Factor, Term
+
+    if t is None:
+        return "not-a-term"
+    return Term([Factor(f["x"], eval_method=f["m"]) for f in t])
 
 
 def _terms(f):
     return [[dict(x=fa.expr, m=fa.eval_method.value) for fa in t.factors] for t in f]
 
 
-def impl(c):
+def _py_spec(v):
+    if "l" in v:
+        return [_term(t) for t in v["l"]]
+    if "t" in v:
+        return tuple(_py_spec(x) for x in v["t"])
+    return {k: _py_spec(x) for k, x in v["n"]}
+
+
+def _build(c, ordering):
     from formulaic import Formula
 
-    from formulaic import ModelSpec
+    kw = {} if ordering is None else {"_ordering": ordering}
+    sp = c["spec"]
+    if "s" in sp:
+        return Formula(sp["s"], **kw)
+    t = sp["tree"]
+    if "l" in t:
+        return Formula(_py_spec(t), **kw)
+    return Formula(**_py_spec(t), **kw)
+
+
+def _walk(v, leaf):
+    """the tree of a Formula / Structured / ModelSpec(s) / ModelMatrix(-ces) in `_structure` order"""
+    from formulaic.utils.structured import Structured
+    from formulaic import SimpleFormula
+
+    if isinstance(v, Structured) and not isinstance(v, SimpleFormula):
+        return {"n": [[k, _walk(x, leaf)] for k, x in v._structure.items()]}
+    if isinstance(v, tuple):
+        return {"t": [_walk(x, leaf) for x in v]}
+    return {"l": leaf(v)}
+
+
+def _formula_leaf(f):
+    return {"o": f.ordering.value, "terms": _terms(f), "st": False}
+
+
+def _spec_leaf(s):
+    return {"o": s.formula.ordering.value, "terms": _terms(s.formula), "st": s.structure is not None}
+
+
+def _frac(v):
+    fr = Fraction(float(v))
+    return str(fr.numerator) if fr.denominator == 1 else f"{fr.numerator}/{fr.denominator}"
+
+
+def _matrix_leaf(mm):
+    """per term: its columns (name, exact values), through the structure recorded in the matrix' spec"""
+    arr = numpy.asarray(mm)
+    out, pos = [], 0
+    for s in mm.model_spec.structure:
+        cols = []
+        for name in s.columns:
+            cols.append({"name": name, "values": [_frac(v) for v in arr[:, pos]]})
+            pos += 1
+        out.append(cols)
+    if pos != (arr.shape[1] if arr.ndim == 2 else 0):
+        raise RuntimeError(f"structure describes {pos} columns, matrix has {arr.shape}")
+    return out
+
+
+def _apply_ops(f, ops):
+    for op in ops:
+        try:
+            o = op["o"]
+            if o == "insert":
+                f.insert(op["i"], _term(op["t"]))
+            elif o == "set":
+                f[op["i"]] = _term(op["t"])
+            elif o == "del":
+                del f[op["i"]]
+            elif o == "delslice":
+                del f[op["a"] : op["b"]]
+            elif o == "append":
+                f.append(_term(op["t"]))
+            elif o == "extend":
+                f.extend([_term(t) for t in op["ts"]])
+            elif o == "pop":
+                f.pop(op["i"])
+            else:
+                f.reverse()
+        except Exception:
+            pass  # IndexError / FormulaInvalidError: the state reached is the observable
+
+
+def _map_tree(v, fn):
+    if "l" in v:
+        return {"l": fn(v["l"])}
+    if "t" in v:
+        return {"t": [_map_tree(x, fn) for x in v["t"]]}
+    return {"n": [[k, _map_tree(x, fn)] for k, x in v["n"]]}
+
+
+def impl(c):
+    if c.get("k") != "diff":
+        return _legacy_impl(c)
+    from formulaic import ModelSpec, SimpleFormula
+
+    kw = dict(use_sympy=True) if c["sympy"] else {}
+    mkw = dict(output="numpy", ensure_full_rank=c["efr"])
+    df = pandas.DataFrame(c["data"])
+    f = _build(c, c["ordering"])
+    pre = _build(c, "none")  # the term lists the constructors are handed (the parser's / the caller's order)
+    out = dict(pre=_walk(pre, _formula_leaf))
+    simple = isinstance(f, SimpleFormula)
+    mat0 = None
+    # ---- the entry point
+    try:
+        if c["entry"] == "formula":
+            out["init"] = _walk(f, _formula_leaf)
+            d = f.differentiate(*c["wrt"], **kw)
+            out["d"] = _walk(d, _formula_leaf)
+        else:
+            if c["entry"] == "spec":
+                sp = ModelSpec.from_spec(f, **mkw)
+            else:
+                mat0 = f.get_model_matrix(df, **mkw)
+                sp = mat0.model_spec
+            out["init"] = _walk(sp, _spec_leaf)
+            d = sp.differentiate(*c["wrt"], **kw)
+            out["d"] = _walk(d, _spec_leaf)
+    except Exception as e:
+        if "init" not in out:
+            raise
+        out["d"] = {"error": type(e).__name__}
+        d = None
+    # ---- histories on the one mutable object (SimpleFormula only; a spec's `.formula` is that very object)
+    if simple:
+        target = f if c["entry"] == "formula" else sp
+        fobj = f if c["entry"] == "formula" else sp.formula
+        _apply_ops(fobj, c.get("ops", []))
+        out["terms2"] = _terms(fobj)
+        try:
+            d2 = target.differentiate(*c["wrt"], **kw)
+            d2 = d2 if c["entry"] == "formula" else d2.formula
+            out["d2"] = {"o": d2.ordering.value, "terms": _terms(d2)}
+        except Exception as e:
+            out["d2"] = {"error": type(e).__name__}
+        if "slice" in c:
+            g = fobj[c["slice"][0] : c["slice"][1]]
+            out["terms3"] = _terms(g)
+            try:
+                d3 = g.differentiate(*c["wrt"], **kw)
+                out["d3"] = {"o": d3.ordering.value, "terms": _terms(d3)}
+            except Exception as e:
+                out["d3"] = {"error": type(e).__name__}
+        if d is not None:
+            dd = _build(c, c["ordering"]).differentiate(*c["wrt"], **kw)
+            _apply_ops(dd, c.get("dops", []))
+            out["dd"] = {"o": dd.ordering.value, "terms": _terms(dd)}
+        else:
+            out["dd"] = dict(out["d"])
+    # ---- materialisation, term by term (numpy output: equal labels cannot collide)
+    try:
+        if mat0 is None:
+            mat0 = _build(c, c["ordering"]).get_model_matrix(df, **mkw)
+        out["mat0"] = _walk(mat0, _matrix_leaf)
+        if d is not None:
+            if c["entry"] == "formula":
+                out["mat"] = _walk(d, lambda leaf: _matrix_leaf(leaf.get_model_matrix(df, **mkw)))
+            else:
+                out["mat"] = _walk(d.get_model_matrix(df), _matrix_leaf)
+    except Exception as e:
+        out["mat_error"] = type(e).__name__ + ": " + str(e)[:120]
+    return out
+
+
+def _env(c, o):
+    """the evaluated numeric factors handed to the materializer model: literals as numbers, data columns, and the
+    exact values of the Python factors (computed here, not by formulaic)"""
+    data = {k: numpy.array(v, dtype=object) for k, v in c["data"].items()}
+    exprs = {"0": "literal", "1": "literal"}
+
+    def collect(leaf):
+        for t in leaf["terms"]:
+            for f in t:
+                exprs.setdefault(f["x"], f["m"])
+        return None
+
+    for key in ("pre", "d"):
+        if key in o and "error" not in o[key]:
+            _map_tree(o[key], collect)
+    env = []
+    for x, m in sorted(exprs.items()):
+        if m == "literal":
+            fr = Fraction(x)
+            env.append([x, str(fr.numerator) if fr.denominator == 1 else f"{fr.numerator}/{fr.denominator}"])
+        elif x in PYF:
+            env.append([x, [str(int(v)) for v in PYF[x](data)]])
+        elif x in data:
+            env.append([x, [str(int(v)) for v in data[x]]])
+    return env
+
+
+def request(c, o):
+    if c.get("k") != "diff":
+        return _legacy_request(c, o)
+    if "pre" not in o:
+        return dict(op="diff", tree={"n": []}, wrt=c["wrt"], sympy=c["sympy"])
+    # leaves: the `_ordering` the caller asked for (null = the constructor's default), the terms as handed to the
+    # constructor, and whether the spec has been through a materialisation; the model predicts everything else
+    st = c["entry"] == "matspec"
+
+    def leafs(p):
+        return _map_tree(p, lambda l: {"o": c["ordering"], "terms": l["terms"], "st": st})
+
+    r = dict(op="diff", tree=leafs(o["pre"]), wrt=c["wrt"], sympy=c["sympy"],
+             ops=c.get("ops", []), dops=c.get("dops", []))
+    if "slice" in c:
+        r["slice"] = c["slice"]
+    r["mat"] = dict(env=_env(c, o), efr=c["efr"], nrows=NROWS)
+    return r
+
+
+def agree(c, o, m):
+    if "driver_error" in m:
+        return "driver: " + m["driver_error"][:300]
+    if c.get("k") != "diff":
+        return _legacy_agree(c, o, m)
+    for key, what in (
+        ("init", "term lists after the constructor's re-ordering"),
+        ("d", "differentiated formula/spec tree"),
+        ("terms2", "term list after the edit history"),
+        ("d2", "derivative after the edit history"),
+        ("dd", "derivative object after further edits"),
+        ("terms3", "slice of the edited formula"),
+        ("d3", "derivative of the slice"),
+    ):
+        if key in o and o[key] != m.get(key):
+            return f"{what}: implementation and model differ ({key})"
+    if "mat_error" in o:
+        # the model has no failing branch for numeric data
+        return "materialisation failed in the implementation: " + o["mat_error"]
+    for key, what in (("mat0", "columns of the original"), ("mat", "columns of the derivative")):
+        if key in o and o[key] != m.get(key):
+            return f"{what}, term by term: implementation and model differ ({key})"
+    return None
+
+
+# ----------------------------------------------------------------------------- oracle (no model)
+
+
+def _spec_derivative(term, wrt):
+    """product rule on a list of (expr, method) — independent re-statement used only by the oracle"""
+    fs = list(term)
+    for v in wrt:
+        if not any(f["x"] == v for f in fs):
+            return None
+        fs = [f for f in fs if f["x"] != v]
+    return fs
+
+
+def _shown(want):
+    return [dict(x="0", m="literal")] if want is None else (want or [dict(x="1", m="literal")])
+
+
+def _check_terms(orig, der, wrt, where):
+    if len(der) != len(orig):
+        return f"{where}: {len(orig)} terms, derivative has {len(der)}"
+    for i, (t, d) in enumerate(zip(orig, der)):
+        shown = _shown(_spec_derivative(t, wrt))
+        if d != shown:
+            return f"{where}: term {i} {t} differentiated to {d}, product rule gives {shown}"
+    return None
+
+
+def _pairs(a, b, where="formula"):
+    """leaf pairs of two trees of the same shape (keys matched by name); raises ValueError on a shape mismatch"""
+    if "l" in a:
+        if "l" not in b:
+            raise ValueError(f"{where}: a formula became a container")
+        return [(where, a["l"], b["l"])]
+    if "t" in a:
+        if "t" not in b or len(a["t"]) != len(b["t"]):
+            raise ValueError(f"{where}: tuple of {len(a['t'])} parts changed shape")
+        return [p for i, (x, y) in enumerate(zip(a["t"], b["t"])) for p in _pairs(x, y, f"{where}[{i}]")]
+    if "n" not in b or sorted(k for k, _ in a["n"]) != sorted(k for k, _ in b["n"]):
+        raise ValueError(f"{where}: keys changed")
+    bm = dict((k, v) for k, v in b["n"])
+    return [p for k, x in a["n"] for p in _pairs(x, bm[k], f"{where}.{k}")]
+
+
+def _value(term, env):
+    out = numpy.ones(NROWS)
+    for f in term:
+        out = out * env[f["x"]]
+    return out
+
+
+def _fd(term, env, wrt):
+    if not wrt:
+        return _value(term, env)
+    v, rest = wrt[0], wrt[1:]
+    if v not in env:
+        return _fd(term, env, rest) * 0
+    env2 = dict(env)
+    env2[v] = env[v] + 1
+    return _fd(term, env2, rest) - _fd(term, env, rest)
+
+
+def oracle(c, o):
+    if "harness_exception" in o:
+        return "harness could not run the implementation: " + o["harness_exception"]
+    if c.get("k") != "diff":
+        return _legacy_oracle(c, o)
+    wrt = c["wrt"]
+    if "error" in o["d"]:
+        if c["sympy"]:
+            return None  # use_sympy=True where sympy is not installed: the property says nothing about this call
+        return f"differentiate raised {o['d']['error']}"
+    try:
+        pairs = _pairs(o["init"], o["d"])
+    except ValueError as e:
+        return "structure of the result differs: " + str(e)
+    for where, a, b in pairs:
+        why = _check_terms(a["terms"], b["terms"], wrt, where)
+        if why:
+            return why
+    if "terms2" in o:
+        if "error" in o["d2"]:
+            if not c["sympy"]:
+                return f"differentiating the edited formula raised {o['d2']['error']}"
+        else:
+            why = _check_terms(o["terms2"], o["d2"]["terms"], wrt, "after in-place edits")
+            if why:
+                return why
+    if "terms3" in o:
+        if "error" in o["d3"]:
+            if not c["sympy"]:
+                return f"differentiating a slice of the formula raised {o['d3']['error']}"
+        else:
+            why = _check_terms(o["terms3"], o["d3"]["terms"], wrt, "slice of the formula")
+            if why:
+                return why
+    if "mat_error" in o:
+        return "materialisation of the derivative failed: " + o["mat_error"]
+    if "mat" not in o:
+        return None
+    # finite differences (h = 1 in each wrt variable successively) of the product of the original term's factors
+    data = {k: numpy.array(v, dtype=float) for k, v in c["data"].items()}
+    env = dict(data)
+    for x, fn in PYF.items():
+        env[x] = fn(data)
+    for x in ["0", "1"] + LITS:
+        env[x] = float(Fraction(x))
+    try:
+        mpairs = _pairs(o["init"], o["mat"])
+    except ValueError as e:
+        return "structure of the derivative's matrices differs: " + str(e)
+    for where, a, cols in mpairs:
+        if len(cols) != len(a["terms"]):
+            return f"{where}: {len(a['terms'])} terms but the derivative's matrix records {len(cols)} terms"
+        seen = []
+        for i, (t, tc) in enumerate(zip(a["terms"], cols)):
+            want = _spec_derivative(t, wrt)
+            if want is None:
+                continue  # zero derivative: the property speaks about non-zero derivative terms only
+            key = frozenset(f["x"] for f in want if f["m"] != "literal")
+            repeated = key in seen
+            seen.append(key)
+            if repeated and c["efr"]:
+                continue  # an equal term earlier in the derivative already spans this column (rank reduction)
+            if any(f["x"] not in env for f in t):
+                continue
+            if any(f["m"] == "python" and PYF_VARS.get(f["x"], set()) & set(wrt) for f in t):
+                continue  # not multilinear in that data variable: outside the second clause
+            expect = _fd(t, env, wrt)
+            if len(tc) != 1:
+                return f"{where}: non-zero derivative term {_shown(want)} of {t} materialised to {len(tc)} columns (expected 1)"
+            got = numpy.array([float(Fraction(v)) for v in tc[0]["values"]])
+            if not numpy.array_equal(got, expect):
+                return f"{where}: derivative term {_shown(want)} of {t}: column {got.tolist()} != finite difference {expect.tolist()}"
+    return None
+
+
+def classify(c, o, why):
+    return None
+
+
+# ----------------------------------------------------------------------------- legacy case format (old replays)
+
+
+def _legacy_impl(c):
+    from formulaic import Formula, ModelSpec
 
     f = Formula(c["formula"])
     entry = c.get("entry", "formula")
@@ -125,13 +739,11 @@ def impl(c):
             out["dterms2"] = _terms(f.differentiate(*c["wrt"]))
         except Exception as e:
             out["dterms2"] = {"error": type(e).__name__}
-    # materialise original and derivative (numpy output: equal labels cannot collide)
     try:
         if dspec is not None:
             dm = dspec.get_model_matrix(df)
         else:
             dm = d.get_model_matrix(df, output="numpy", ensure_full_rank=c["efr"])
-        # per-term columns through the recorded structure (term order = formula order)
         st = dm.model_spec.structure
         cols, pos = [], 0
         arr = numpy.asarray(dm)
@@ -145,16 +757,14 @@ def impl(c):
     return out
 
 
-def request(c, o):
+def _legacy_request(c, o):
     r = dict(terms=o.get("terms", []), wrt=c["wrt"])
     if "terms2" in o:
         r["terms2"] = o["terms2"]
     return r
 
 
-def agree(c, o, m):
-    if "driver_error" in m:
-        return "driver: " + m["driver_error"][:300]
+def _legacy_agree(c, o, m):
     if "error" in o or "error" in m:
         return None if o.get("error") == m.get("error") else f"impl {o.get('error')} vs model {m.get('error')}"
     if o.get("dterms") != m.get("terms"):
@@ -164,65 +774,30 @@ def agree(c, o, m):
     return None
 
 
-def _spec_derivative(term, wrt):
-    """product rule on a list of (expr, method) — independent re-statement used only by the oracle"""
-    fs = list(term)
-    for v in wrt:
-        if not any(f["x"] == v for f in fs):
-            return None
-        fs = [f for f in fs if f["x"] != v]
-    return fs
-
-
-def oracle(c, o):
-    if "harness_exception" in o:
-        return "harness could not run the implementation: " + o["harness_exception"]
+def _legacy_oracle(c, o):
     if "error" in o:
         return f"differentiate raised {o['error']}"
-    if len(o["dterms"]) != len(o["terms"]):
-        return "number of terms changed"
-    for t, d in zip(o["terms"], o["dterms"]):
-        want = _spec_derivative(t, c["wrt"])
-        shown = [dict(x="0", m="literal")] if want is None else (want or [dict(x="1", m="literal")])
-        if d != shown:
-            return f"term {t} differentiated to {d}, product rule gives {shown}"
+    why = _check_terms(o["terms"], o["dterms"], c["wrt"], "formula")
+    if why:
+        return why
     if "terms2" in o:
         d2 = o["dterms2"]
         if isinstance(d2, dict):
             return f"differentiating the edited formula raised {d2['error']}"
-        if len(d2) != len(o["terms2"]):
-            return f"after in-place edits the formula has {len(o['terms2'])} terms but its derivative has {len(d2)}"
-        for t, d in zip(o["terms2"], d2):
-            want = _spec_derivative(t, c["wrt"])
-            shown = [dict(x="0", m="literal")] if want is None else (want or [dict(x="1", m="literal")])
-            if d != shown:
-                return f"after in-place edits: term {t} differentiated to {d}, product rule gives {shown}"
+        why = _check_terms(o["terms2"], d2, c["wrt"], "after in-place edits")
+        if why:
+            return why
     if "mat_error" in o:
         return "materialisation of the derivative failed: " + o["mat_error"]
-    # finite differences (h = 1 in each wrt variable successively) of each original term's column
     data = {k: numpy.array(v, dtype=float) for k, v in c["data"].items()}
-
-    def value(term, env):
-        out = numpy.ones(4)
-        for f in term:
-            out = out * (float(f["x"]) if f["m"] == "literal" else env[f["x"]])
-        return out
-
-    def fd(term, env, wrt):
-        if not wrt:
-            return value(term, env)
-        v, rest = wrt[0], wrt[1:]
-        if v not in env:
-            return fd(term, env, rest) * 0
-        env2 = dict(env)
-        env2[v] = env[v] + 1
-        return fd(term, env2, rest) - fd(term, env, rest)
-
+    env = dict(data)
+    for x in ["0", "1"] + LITS:
+        env[x] = float(Fraction(x))
     for t, d, cols in zip(o["terms"], o["dterms"], o["dcols"]):
         want = _spec_derivative(t, c["wrt"])
-        if want is None:
-            continue  # zero derivative: the property speaks about non-zero derivative terms only
-        expect = fd(t, data, c["wrt"])
+        if want is None or any(f["x"] not in env for f in t):
+            continue
+        expect = _fd(t, env, c["wrt"])
         if len(cols) != 1:
             return f"non-zero derivative term {d} of {t} materialised to {len(cols)} columns (expected 1)"
         if not numpy.array_equal(numpy.array(cols[0]), expect):
@@ -230,17 +805,28 @@ def oracle(c, o):
     return None
 
 
-def classify(c, o, why):
-    return None
-
 LEVEL_TEXT = (
-    "Proof: Lean theorems (Props/C20.lean) show for ALL term lists and ALL tuples of variables that the model of "
-    "differentiate_term/SimpleFormula.differentiate returns, term by term and in order, the product-rule derivative "
-    "(0 / factor removed / 1), that partial derivatives commute, and that for distinct factors the exact finite "
-    "difference equals h times the derivative's value in every commutative ring. The model is tied to the code by a "
-    "differential correspondence on every run; the materialisation clause is checked on the real code by the oracle."
+    "Proof: Lean theorems (Props/C20.lean, 23) about the executable models the c20 engine runs. For ALL term lists and "
+    "ALL tuples of variables the model of differentiate_term returns the product-rule derivative (0 / factors removed "
+    "/ 1); a variable that only occurs inside a Python factor's code is not found (derivative 0) and the whole factor "
+    "string is; use_sympy without sympy raises exactly when there is something to ask. For EVERY state of a "
+    "SimpleFormula — every _ordering option, every history of sequence operations, every slice — the derivative has "
+    "ordering NONE and its i-th term is the derivative of the i-th term; StructuredFormula.differentiate and "
+    "ModelSpec(s).differentiate are the part-wise map (same keys/shape, structure reset), one failing part fails "
+    "the call. Partial derivatives commute for any number of variables; the iterated exact finite difference of a "
+    "product of distinct factors is the product of the steps times the iterated derivative's value in every "
+    "commutative ring. The C02 materializer model on a numeric cache is proved to produce, term by term, exactly one "
+    "column per (non-repeated, non-empty) term holding the product of its factors, with and without rank reduction; "
+    "hence every non-zero derivative term of a formula with pairwise different terms materialises to exactly one "
+    "column, equal row by row to the exact finite difference of the original term's value. The models are tied to "
+    "the code by a differential correspondence on every run (term lists, orderings, histories, structures, and the "
+    "columns of derivative and original matrices, compared exactly)."
 )
 LEVEL_NOTE = (
-    "Trusted: Lean kernel + propext/Classical.choice/Quot.sound; the hand model of calculus.py (non-sympy path) validated "
-    "by correspondence on generated formulas; that a materialised column equals the product of its factors is C02's claim; sympy path not modelled."
+    "Trusted: Lean kernel + propext/Classical.choice/Quot.sound; the hand models of calculus.py (non-sympy path and "
+    "the sympy-missing branch), SimpleFormula/Structured (shared with C19) and the materializer (shared with C02), "
+    "validated by correspondence on generated formulas; Gen/Calculus.lean is regenerated from the live package; the "
+    "sympy path proper is not modelled (sympy not installed); categorical factors and missing values are outside the "
+    "second clause; that the hand model of the materializer matches the code beyond the generated numeric formulas "
+    "is C02's claim."
 )
